@@ -1,6 +1,6 @@
 use jxl_bitstream::Bitstream;
 use jxl_grid::{AlignedGrid, AllocTracker};
-use jxl_modular::{MaConfig, Modular, ModularChannelParams, ModularParams};
+use jxl_modular::{ChannelShift, MaConfig, Modular, ModularChannelParams, ModularParams};
 use jxl_oxide_common::Bundle;
 
 use crate::{Result, TransformType};
@@ -79,6 +79,12 @@ impl Bundle<HfMetadataParams<'_, '_, '_>> for HfMetadata {
             bh = bh.div_ceil(2) * 2;
         }
 
+        // Whether any channel is actually smaller than the block grid.
+        let is_subsampled = (0..3).any(|idx| {
+            let shift = ChannelShift::from_jpeg_upsampling(jpeg_upsampling, idx);
+            shift.hshift() != 0 || shift.vshift() != 0
+        });
+
         let nb_blocks =
             1 + bitstream.read_bits((bw * bh).next_power_of_two().trailing_zeros() as usize)?;
 
@@ -141,6 +147,20 @@ impl Bundle<HfMetadataParams<'_, '_, '_>> for HfMetadata {
                     }
 
                     let (dw, dh) = dct_select.dct_select_size();
+                    if is_subsampled && (dw > 1 || dh > 1) {
+                        tracing::error!(
+                            lf_group_idx,
+                            base_x = x,
+                            base_y = y,
+                            ?dct_select,
+                            "varblock larger than 8x8 in chroma-subsampled frame",
+                        );
+                        return Err(jxl_bitstream::Error::ValidationFailed(
+                            "varblock larger than 8x8 in chroma-subsampled frame",
+                        )
+                        .into());
+                    }
+
                     let x_in_group = (x % 32) as u32;
                     let y_in_group = (y % 32) as u32;
                     if x_in_group + dw > 32 || y_in_group + dh > 32 {
